@@ -240,7 +240,34 @@ def shared_date_programs(draw):
 
 
 @st.composite
+def many_dates_programs(draw):
+    """hundreds of distinct dates pending at once, most of them abandoned (their waiters are torn down early): what is
+    left still resumes in the order of the dates, each exactly at its date"""
+    n_dead = draw(st.integers(100, 180))
+    n_live = draw(st.integers(140, 180))
+    roots = []
+    for i in range(n_dead):
+        # torn down one after the other, long before their dates
+        roots.append({'name': 'a%d' % (i + 1), 'steps': [{'op': 'until', 'notif': ['delay', 0.5 + (i % 20) * 0.5], 'children': [],
+                                                         'body': [{'op': 'sleep', 'd': 30 + i * 0.25}]}]})
+    for j in range(n_live):
+        # distinct dates in a scrambled order of creation, new ones all the time
+        roots.append({'name': 'a%d' % (n_dead + j + 1), 'steps': [
+            {'op': 'sleep', 'd': 3 + (j * 37 % n_live) * 0.75}, {'op': 'sleep', 'd': 0.5 + (j * 13 % 7) * 1.25},
+            {'op': 'sleep', 'd': 0.25 + (j * 5 % 11) * 0.75}]})
+    if draw(st.booleans()):
+        # the crowd arrives in stages (a common date per stage): the number of pending dates grows step by step
+        for i, r in enumerate(roots):
+            r['steps'].insert(0, {'op': 'sleep', 'd': float(i % 6)})
+    order = draw(st.permutations(list(range(len(roots)))))
+    roots = [roots[i] for i in order]
+    return {'start': 0, 'floaty': 0, 'roots': roots, 'shared_dates': False}
+
+
+@st.composite
 def programs(draw, tier):
+    if draw(st.integers(0, 39)) == 0:
+        return draw(many_dates_programs())
     if draw(st.integers(0, 7)) == 0:
         return draw(shared_date_programs())
     floaty = {0: 1, 1: 2, 2: 2}.get(draw(st.integers(0, 9)), 0)
